@@ -119,6 +119,9 @@ pub struct Verdict {
     pub q_subset: bool,
     /// every question of the datagram was asked with byte-identical letter case
     pub case_exact: bool,
+    /// the request was TSIG-signed by the transport: does the datagram verify against the
+    /// reference (RFC 8945, chained to the request's MAC)? None = request was not signed
+    pub tsig_ok: Option<bool>,
 }
 
 impl Verdict {
@@ -130,6 +133,7 @@ impl Verdict {
             && self.id_ok
             && self.q_subset
             && (!case_randomisation || self.case_exact)
+            && self.tsig_ok != Some(false)
     }
     /// Name of the first clause that fails (for keys).
     pub fn first_failing(&self, case_randomisation: bool) -> &'static str {
@@ -146,6 +150,8 @@ impl Verdict {
             "foreign-question"
         } else if case_randomisation && !self.case_exact {
             "case-mismatch"
+        } else if self.tsig_ok == Some(false) {
+            "bad-tsig"
         } else {
             "none"
         }
@@ -156,7 +162,7 @@ pub fn judge_datagram(bytes: &[u8], src: SocketAddr, queried: SocketAddr, reques
     let srcc = classify_src(src, queried);
     let (rid, asked) = request_view(request).unwrap_or((0, vec![]));
     match wire::walk(bytes) {
-        Err(_) => Verdict { src: srcc, decodable: false, is_response: false, id_ok: false, q_subset: false, case_exact: false },
+        Err(_) => Verdict { src: srcc, decodable: false, is_response: false, id_ok: false, q_subset: false, case_exact: false, tsig_ok: None },
         Ok(w) => {
             let mut subset = true;
             let mut exact = true;
@@ -175,6 +181,7 @@ pub fn judge_datagram(bytes: &[u8], src: SocketAddr, queried: SocketAddr, reques
                 id_ok: w.header.id == rid,
                 q_subset: subset,
                 case_exact: exact,
+                tsig_ok: None,
             }
         }
     }
